@@ -241,8 +241,22 @@ def run_case(case):
         # the tabulated callable is a multi-range wrapper (default range > 0) around the spline object
         inner = fn.range_defns[0].potential_form if hasattr(fn, 'range_defns') else fn
         objs.append(('spline() modifier %s %s' % (mk1, mk2), inner, None, None))
+    # the first part of spline() may carry its own lower bound: below it the potential is zero, above it the start potential
+    for fm, frac in (('>=', 0.5), ('>', 0.25)):
+        lb = frac * float(d)
+        dsp = D({"mod": "spline", "start": s_it, "detach": ['>', d], "kind": kind, "rmin": rm, "attach": ['>=', a], "end": e_it, "first": [fm, lb]})
+        fn = R.config_read(M.pair_ini('LAMMPS', [('A', 'B', dsp)], 5.0, 6)).potentials[0].potentialFunction
+        for r in (0.2 * lb, math.nextafter(lb, -math.inf), lb, math.nextafter(lb, math.inf), 0.5 * (lb + float(d)), a + 0.5):
+            j = X.ev_defn(dsp, r, M.env())
+            n += 1
+            if not abs(fn(r) - j.v) <= 1e-9 * (abs(j.v) + 1.0):
+                viol.append(dict(sig='first-part-range', msg='spline(%s%r %s ...) [%s -> %s]: value at r=%r is %r, expected %r (the first part starts at %s%r)'
+                                 % (fm, lb, case['start'], case['start'], case['end'], r, fn(r), j.v, fm, lb), detail={}))
+                break
+        if viol:
+            break
     ref_coeffs = None
-    for how, f, so_, eo_ in objs:
+    for how, f, so_, eo_ in ([] if viol else objs):
         n += check_spline(f, case, s_it, e_it, how, viol, so_, eo_)
         if viol:
             break
